@@ -7,4 +7,7 @@ K_1s2 == <<"pub1", "sub", "pub2">>
 K_2210 == <<"pub2", "pub2", "pub1", "pub0">>
 K_0121 == <<"pub0", "pub1", "pub2", "pub1">>
 K_12 == <<"pub1", "pub2">>
+K_u1s == <<"unsub", "pub1", "sub">>
+K_su == <<"sub", "unsub">>
+K_u2 == <<"unsub", "pub2">>
 =============================================================================
